@@ -41,12 +41,78 @@ def hierarchies(tier):
     return fam + extra
 
 
+CHAIN5 = {"name": "CHAIN5", "abstract": [["E", None, "ABC"], ["T", None, "ABC"]],
+          "prods": [["ET", "E", None, [["t", ["ref", "T"]]]], ["TE", "T", None, [["e", ["ref", "E"]]]],
+                    ["Num", "T", None, [["v", G.IR01]]]], "start": "E"}
+
+
 def units(tier, seed):
     us = []
     for spec in hierarchies(tier):
         for xd in (False, True):
             us.append({"spec": spec, "xd": xd, "lang_cap": 3000 if tier == "quick" else 50000})
+    # the analysis iterates Python sets of classes: repeat it under every iteration order of those sets (dictated
+    # through a metaclass with a harness-controlled __hash__) for hierarchies of <= 5 classes, and under a fixed
+    # family of 60 orders for larger ones
+    shapes = {s["name"].split(":")[0]: s for s in G.family_shapes()}
+    for spec in [CHAIN5, shapes["S3"], shapes["S18"], shapes["S20"], shapes["S2"], shapes["S9"], shapes["S15"]]:
+        us.append({"spec": spec, "xd": False, "lang_cap": 3000, "orders": True})
     return us
+
+
+def order_family(k):
+    import itertools
+    import random as _random
+
+    if k <= 5:
+        return list(itertools.permutations(range(k)))
+    rng = _random.Random(20260926)
+    base = list(range(k))
+    out = []
+    for i in range(k):
+        rot = base[i:] + base[:i]
+        out += [tuple(rot), tuple(reversed(rot))]
+    for _ in range(60):
+        p = base[:]
+        rng.shuffle(p)
+        out.append(tuple(p))
+    return list(dict.fromkeys(out))
+
+
+def run_orders(unit) -> UnitResult:
+    r = UnitResult()
+    spec = unit["spec"]
+    names = [a[0] for a in spec["abstract"]] + [p[0] for p in spec["prods"]]
+    ref_rec = R.ref_recursive(spec)
+    refd = R.ref_min_depth(spec, False, exact=False)
+    seen_orders = set()
+    for perm in order_family(len(names)):
+        ho = {n: 3 + p for n, p in zip(names, perm)}
+        b = G.build(spec, hash_order=ho)
+        try:
+            g = b.extract()
+            r.executions += 1
+            seen_orders.add(tuple(tname(c) for c in g.all_nodes))
+            got_rec = {tname(c) for c in g.recursive_prods if c.__module__ != "builtins"}
+            w = {"unit": unit, "hash_order": ho}
+            if got_rec != ref_rec:
+                r.add_violation(Violation(PROP, "Grammar.recursive_prods", "wrong-recursive-set",
+                                          {"xd": False, "missing": sorted(ref_rec - got_rec) != [], "extra": sorted(got_rec - ref_rec) != [], "order_dependent": True}, w,
+                                          f"{spec['name']}: under the symbol-set iteration order {[tname(c) for c in g.all_nodes]} recursive_prods = "
+                                          f"{sorted(got_rec)}, reference = {sorted(ref_rec)}"))
+            for c in g.all_nodes:
+                n = tname(c)
+                if n in refd and g.distanceToTerminal.get(c) != refd[n] and not any(R.may_be_empty_list(ft) for p in spec["prods"] for _, ft in p[3]):
+                    r.add_violation(Violation(PROP, "Grammar.distanceToTerminal", "wrong-minimum-depth", {"sign": "order", "cause": "order-dependent"}, w,
+                                              f"{spec['name']}: distanceToTerminal[{n}] = {g.distanceToTerminal.get(c)} under one iteration order, reference {refd[n]}"))
+        finally:
+            b.cleanup()
+    r.count("iteration_orders_tried", r.executions)
+    r.count("distinct_all_nodes_orders", len(seen_orders))
+    r.states = len(seen_orders)
+    r.nontrivial = len(seen_orders)
+    r.samples.append({"grammar": spec["name"], "orders": r.executions, "distinct_all_nodes_orders": len(seen_orders)})
+    return r
 
 
 def reg_names(g):
@@ -54,6 +120,8 @@ def reg_names(g):
 
 
 def run_unit(unit) -> UnitResult:
+    if unit.get("orders"):
+        return run_orders(unit)
     r = UnitResult()
     spec = unit["spec"]
     xd = unit["xd"]
@@ -244,6 +312,7 @@ def finalize(cr):
     cr.require("symbols_checked")
     cr.require("reference_validated_by_enumeration")
     cr.require("usable_language_compared")
+    cr.require("distinct_all_nodes_orders")
     cr.assumptions += [
         "shipped grammars (geml.grammars, examples, tests) are not loaded by this check yet; the generated family "
         "re-declares the shapes used by the test-suite (S5, S6, S7)",
